@@ -13,7 +13,6 @@ import (
 	"math/rand"
 	"os"
 	"path/filepath"
-	"runtime/pprof"
 	"sort"
 	"strings"
 	"time"
@@ -325,8 +324,8 @@ func (e *flatEnv) eval(f fault, m []byte) {
 }
 
 func (j *judge) nontrivial(f fault, m []byte) {
-	exp, stop, _ := j.lm.expect(m)
-	if len(exp) >= 1 && (stop != "clean" || len(exp) != len(j.lm.frames)) {
+	e := j.lm.expect(m)
+	if len(e.exp) >= 1 && (e.stop != "clean" || len(e.exp) != len(j.lm.frames)) {
 		rec, _ := j.lm.fieldOf(f.Off)
 		j.c.Run.Nontrivial(fmt.Sprintf("%s:%d:%s:%s:%d:%d", j.c.Group, j.c.I, j.lm.where, f.Kind, f.File, rec))
 	}
@@ -352,10 +351,18 @@ func (j *judge) repair(dir string, f fault, m []byte) {
 		run.Inconclusive("scratch read failed: " + err.Error())
 		return
 	}
-	exp, _, oos := j.lm.expect(m)
+	e := j.lm.expect(m)
+	exp, oos := e.exp, e.oos
 	res := decodeAll(bytes.NewReader(out), meterOff)
 	run.Count("repairs", 1)
 	for i, got := range res.msgs {
+		if i == len(exp) && e.opt == oosOpt {
+			oos = true
+		}
+		if i == len(exp) && e.opt >= 0 && canonT(got.Time, got.Msg) == j.lm.canon[e.opt] {
+			run.Count("cut_record_with_zero_tail_repaired", 1)
+			continue
+		}
 		if i < len(exp) {
 			if g := canonT(got.Time, got.Msg); g != j.lm.canon[exp[i]] {
 				j.c.Violation("repair:"+cls+":different-message", fmt.Sprintf("%s: message %d of the repaired log is %s, written as %s", f, i, short(g, 300), short(j.lm.canon[exp[i]], 300)), j.witness(f, nil))
@@ -431,7 +438,7 @@ func writeThroughFileWAL(c *core.Case, r *rand.Rand, msgs []consensus.WALMessage
 		if checkWhileRunning && !cfg.Timed && s == readSession {
 			fl.wal.FlushAndSync()
 			if lm, files := layoutModel(c, fl, "while running"); lm != nil {
-				j := &judge{c: c, lm: lm}
+				j := &judge{c: c, lm: lm, ctx: fl.ctx()}
 				j.readIntact(fl.wal, meterOff)
 				searchAll(j, fl.wal, r, files, 2)
 				c.Run.Count("read_while_running", 1)
@@ -467,7 +474,7 @@ func layoutModel(c *core.Case, fl *fileLog, when string) (*logModel, []lfile) {
 	}
 	if stop != "clean" || len(frames) != len(fl.model) {
 		c.Violation("framing:layout:files-do-not-hold-the-written-records", fmt.Sprintf("%s: %d messages were written, the files hold %d well-formed records and then: %s", when, len(fl.model), len(frames), stop),
-			(&judge{c: c, lm: lm}).witness(fault{Kind: "none"}, map[string]interface{}{"cfg": fl.cfg, "trace": fl.trace}))
+			(&judge{c: c, lm: lm, ctx: fl.ctx()}).witness(fault{Kind: "none"}, nil))
 		return nil, nil
 	}
 	return lm, files
@@ -693,6 +700,8 @@ func exhaustive(c *core.Case, r *rand.Rand, list []consensus.WALMessage, tag str
 		if perLog {
 			run.Count("log["+tag+"].flat_bytes", len(img))
 			run.Count("log["+tag+"].flat_records", len(lm.frames))
+			run.Count("log["+tag+"].flat_truncations_visited", len(img)+1)
+			run.Count("log["+tag+"].flat_bit_flips_visited", len(img)*8)
 		}
 	})
 
@@ -716,10 +725,8 @@ func exhaustive(c *core.Case, r *rand.Rand, list []consensus.WALMessage, tag str
 		return
 	}
 	defer closeReadOnly(ro)
-	lj := &judge{c: c, lm: llm}
-	c.Guard("rotated files under enumerated faults", func() interface{} {
-		return lj.witness(lj.cur, map[string]interface{}{"cfg": cfg, "trace": fl.trace})
-	}, func() {
+	lj := &judge{c: c, lm: llm, ctx: fl.ctx()}
+	c.Guard("rotated files under enumerated faults", func() interface{} { return lj.witness(lj.cur, nil) }, func() {
 		lj.readIntact(ro, meterExact)
 		searchAll(lj, ro, r, files, 3)
 		le := newLayoutEnv(lj, ro, files, r)
@@ -746,6 +753,8 @@ func exhaustive(c *core.Case, r *rand.Rand, list []consensus.WALMessage, tag str
 		if perLog {
 			run.Count("log["+tag+"].layout_bytes", total)
 			run.Count("log["+tag+"].layout_files", len(files))
+			run.Count("log["+tag+"].layout_truncations_visited", total+len(files))
+			run.Count("log["+tag+"].layout_bit_flips_visited", total*8)
 		}
 	})
 	if c.I < 2 {
@@ -818,10 +827,8 @@ func largeLog(c *core.Case) {
 		return
 	}
 	defer closeReadOnly(ro)
-	lj := &judge{c: c, lm: llm}
-	c.Guard("rotated files under random faults", func() interface{} {
-		return lj.witness(lj.cur, map[string]interface{}{"cfg": cfg, "trace": fl.trace})
-	}, func() {
+	lj := &judge{c: c, lm: llm, ctx: fl.ctx()}
+	c.Guard("rotated files under random faults", func() interface{} { return lj.witness(lj.cur, nil) }, func() {
 		lj.readIntact(ro, meterExact)
 		searchAll(lj, ro, r, files, 3)
 		le := newLayoutEnv(lj, ro, files, r)
@@ -845,11 +852,6 @@ func largeLog(c *core.Case) {
 
 func Main() {
 	log.Root().SetHandler(log.DiscardHandler())
-	if p := os.Getenv("VERIF_C15_PROF"); p != "" {
-		f, _ := os.Create(p)
-		pprof.StartCPUProfile(f)
-		defer pprof.StopCPUProfile()
-	}
 	r := core.Start("C15", "fault_enumeration")
 	r.SetRule("a fault evaluation is non-trivial when at least one intact record precedes the damage and the damaged image differs from the written log (the reader must both keep a prefix and stop); distinct by (log, flat image or rotated files, fault class, file, damaged record). Logs hold all six WAL message kinds with random field values; small logs (<= 4 KiB) get EVERY truncation offset and EVERY single-bit flip, on the encoder image (decoder and repairWalFile) and on the real rotated files (group reader and SearchForEndHeight); large logs get random faults of every class")
 	r.Assume("messages are in the domain the consensus state writes (they pass ValidateBasic); end-height markers increase strictly; a corruption that leaves a well-formed record with a matching CRC-32C is out of scope (counted as out_of_scope_crc_preserving)")
@@ -888,6 +890,5 @@ func Main() {
 		r.Floor("faults:overwrite", 20)
 		r.Floor("corpus_size_limit_checks", 3)
 	}
-	pprof.StopCPUProfile()
 	r.Finish()
 }
